@@ -33,7 +33,8 @@ _STATE = {}
 REAL_WALL_LIMIT = 25.0     # a real /bin/sh printing a few kilobytes
 MARKER = '--verif-task-%d'
 STALE = 'STALE text left by an earlier run\n'
-QUIET = {'exit': 0, 'dur': 0, 'out': '', 'err': '', 'start': None, 'args': []}
+QUIET = {'exit': 0, 'dur': 0, 'out': '', 'err': '', 'start': None, 'args': [],
+         'reads_stdin': False}
 START_FAIL = {'ENOENT': FileNotFoundError, 'EACCES': PermissionError,
               'ENOMEM': OSError, 'EAGAIN': OSError,
               # what subprocess raises for a command line it cannot use: an
@@ -94,6 +95,9 @@ def gen_scenario(rng, fam):
                                       ('E%d.%d long ' % (i, k)) * 7000
                                       + '\n')),
                    'start': None,
+                   # the command reads its standard input to the end (cat, a
+                   # y/n prompt): it only ends once that input is closed
+                   'reads_stdin': rng.random() < 0.1,
                    'args': rng.choice(([], ['-x'], ['two words', '$HOME'],
                                        ["it's"], ['-x'], [],
                                        # a file name that is not valid UTF-8,
@@ -308,6 +312,7 @@ def run_scenario(scn, chooser, max_steps=200000):
             self._text = bool(universal_newlines or text or encoding
                               or errors)
             self._targets = {'out': stdout, 'err': stderr}
+            self._stdin_open = stdin == subprocess.PIPE
             self._pending = {'out': b'', 'err': b''}
             self.stdout = self.stderr = None
             try:
@@ -353,6 +358,8 @@ def run_scenario(scn, chooser, max_steps=200000):
             for name in ('out', 'err'):
                 if self._targets[name] == subprocess.PIPE:
                     setattr(self, 'std' + name, _PipeEnd(self, name))
+            if self._stdin_open:
+                self.stdin = _StdinEnd(self)
 
         # -- the child ----------------------------------------------------
         def _emit(self, name, data):
@@ -389,6 +396,11 @@ def run_scenario(scn, chooser, max_steps=200000):
                                    for buf in self._pending.values()):
                 sim.hit('child-blocked-on-a-full-pipe')
                 core.shims()[0].Event().wait()      # never set
+            if cmd.get('reads_stdin') and self._stdin_open and not drained:
+                # its input is a pipe whose other end is still open in the
+                # parent, which is waiting for it: no end-of-file, ever
+                sim.hit('child-blocked-reading-an-open-pipe')
+                core.shims()[0].Event().wait()
             sim.mark('proc-exit', self._rec['ident'])
             self._rec['exit_step'] = sim.steps
             self._rec['code'] = cmd['exit']
@@ -412,6 +424,7 @@ def run_scenario(scn, chooser, max_steps=200000):
             return self.returncode
 
         def communicate(self, input=None, timeout=None):
+            self._stdin_open = False     # communicate() closes it first
             self._run_child(drained=True)
             out = self._take('out') if self.stdout is not None else None
             err = self._take('err') if self.stderr is not None else None
@@ -433,6 +446,19 @@ def run_scenario(scn, chooser, max_steps=200000):
             if self.returncode is None and exc_info[0] is None:
                 self._run_child(drained=True)
             return False
+
+    class _StdinEnd:
+        def __init__(self, proc):
+            self.proc = proc
+
+        def write(self, data):
+            return len(data)
+
+        def flush(self):
+            pass
+
+        def close(self):
+            self.proc._stdin_open = False
 
     class _PipeEnd:
         def __init__(self, proc, name):
